@@ -16,6 +16,12 @@ pub struct Documentation {
   top_level: bool,
 }
 
+/// Turns `\r\n` and a lone `\r` into `\n`: a doc comment must not contain a bare
+/// carriage return (rustc rejects it), and `str::lines` only knows `\n` and `\r\n`.
+fn normalize_line_breaks(text: &str) -> String {
+  text.replace("\r\n", "\n").replace('\r', "\n")
+}
+
 #[bon::bon]
 impl Documentation {
   #[builder]
@@ -32,7 +38,7 @@ impl Documentation {
     };
 
     if let Some(s) = summary {
-      for line in s.lines().filter(|l| !l.trim().is_empty()) {
+      for line in normalize_line_breaks(s).lines().filter(|l| !l.trim().is_empty()) {
         docs.push(line.trim().to_string());
       }
     }
@@ -41,7 +47,7 @@ impl Documentation {
       if summary.is_some() {
         docs.push(String::new());
       }
-      for line in desc.lines() {
+      for line in normalize_line_breaks(desc).lines() {
         docs.push(line.trim().to_string());
       }
     }
@@ -63,7 +69,7 @@ impl Documentation {
   #[must_use]
   pub fn from_optional(desc: Option<&String>) -> Self {
     desc.map_or_else(Self::default, |d| {
-      let formatted = Self::process_doc_text(d);
+      let formatted = normalize_line_breaks(&Self::process_doc_text(d));
       Self {
         lines: formatted.lines().map(String::from).collect(),
         top_level: false,
